@@ -498,6 +498,10 @@ impl Worker {
             return;
         }
 
+        // After a rollover the write starts in the new segment: a failed write must be
+        // truncated back to where it started there, not to the old segment's offset
+        let write_offset = writer_set.writer.write_offset();
+
         let bytes_since_sync = writer_set.bytes_since_sync;
         let res = writer_set.handle_write(WriteOperation {
             partition_key,
